@@ -101,17 +101,23 @@ pub fn arg_bytes(a: &Argument, big: bool) -> Vec<u8> {
     if big { a.as_bytes::<BigEndian>() } else { a.as_bytes::<LittleEndian>() }
 }
 
-/// the obligations shared by every argument harness
-pub fn check_arg_roundtrip(a: &Argument, big: bool) {
+/// the obligations shared by every argument harness (byte order concrete in each call)
+///
+/// Modular through the reference encoding `enc` (refcodec, written from the layout):
+///   writer contract   a.as_bytes::<T>() == enc(a)          (C02 encoding, C15 len)
+///   parser contract   dlt_argument::<T>(enc(a) ++ tail) == (a, tail)
+/// hence parse(write(a) ++ tail) == (a, tail) (C01).
+pub fn check_arg_roundtrip_order(a: &Argument, big: bool) {
     let bytes = arg_bytes(a, big);
-    // C02 encoding
+    // writer == reference layout
     let mut o = Out::new();
     ref_put_argument(&mut o, a, big);
     assert!(o.eq_bytes(&bytes));
-    // C15 computed length == serialised length (either order), validity
+    // C15 computed length == serialised length, validity
     assert!(a.len() == bytes.len());
     assert!(a.valid());
-    // C01 parse(bytes ++ tail) == (a, tail)
+    // parser on write(a) ++ tail (== enc(a) ++ tail by the assertion above)
+    let n = bytes.len();
     let tail: [u8; 2] = kani::any();
     let mut buf = bytes.clone();
     buf.push(tail[0]);
@@ -121,11 +127,17 @@ pub fn check_arg_roundtrip(a: &Argument, big: bool) {
         Ok((rest, a2)) => {
             assert!(argument_eq(a, &a2));
             assert!(bytes_eq(rest, &tail));
-            // C16: re-serialising what was parsed reproduces the bytes
-            assert!(bytes_eq(&arg_bytes(&a2, big), &bytes));
+            assert!(buf.len() - rest.len() == n);
         }
         Err(_) => { assert!(false); }
     }
+}
+
+/// NOTE (measured): the byte order must be a constant inside the body. A symbolic `big` makes the
+/// two writer results (different heap objects) merge into pointer if-then-elses and CBMC does not
+/// finish (> 10 GB); branching once at the top with constants costs 2 x 12 s.
+pub fn check_arg_roundtrip(a: &Argument, big: bool) {
+    if big { check_arg_roundtrip_order(a, true) } else { check_arg_roundtrip_order(a, false) }
 }
 
 fn type_info(kind: TypeInfoKind, vari: bool, sym_flags: bool) -> TypeInfo {
@@ -170,32 +182,32 @@ macro_rules! arg_harness {
 }
 
 // quick tier: concrete flags, no variable info, value symbolic, both orders — complete for the value
-arg_harness!(c01_arg_u8, 6, false, false, 1, TypeInfoKind::Unsigned(TypeLength::BitLength8), Value::U8(kani::any()), None);
-arg_harness!(c01_arg_u16, 6, false, false, 1, TypeInfoKind::Unsigned(TypeLength::BitLength16), Value::U16(kani::any()), None);
-arg_harness!(c01_arg_u32, 6, false, false, 1, TypeInfoKind::Unsigned(TypeLength::BitLength32), Value::U32(kani::any()), None);
-arg_harness!(c01_arg_u64, 10, false, false, 1, TypeInfoKind::Unsigned(TypeLength::BitLength64), Value::U64(kani::any()), None);
-arg_harness!(c01_arg_u128, 18, false, false, 1, TypeInfoKind::Unsigned(TypeLength::BitLength128), Value::U128(kani::any()), None);
-arg_harness!(c01_arg_i8, 6, false, false, 1, TypeInfoKind::Signed(TypeLength::BitLength8), Value::I8(kani::any()), None);
-arg_harness!(c01_arg_i16, 6, false, false, 1, TypeInfoKind::Signed(TypeLength::BitLength16), Value::I16(kani::any()), None);
-arg_harness!(c01_arg_i32, 6, false, false, 1, TypeInfoKind::Signed(TypeLength::BitLength32), Value::I32(kani::any()), None);
-arg_harness!(c01_arg_i64, 10, false, false, 1, TypeInfoKind::Signed(TypeLength::BitLength64), Value::I64(kani::any()), None);
-arg_harness!(c01_arg_i128, 18, false, false, 1, TypeInfoKind::Signed(TypeLength::BitLength128), Value::I128(kani::any()), None);
-arg_harness!(c01_arg_f32, 6, false, false, 1, TypeInfoKind::Float(FloatWidth::Width32), Value::F32(kani::any()), None);
-arg_harness!(c01_arg_f64, 10, false, false, 1, TypeInfoKind::Float(FloatWidth::Width64), Value::F64(kani::any()), None);
-arg_harness!(c01_arg_sfix32, 10, false, false, 1, TypeInfoKind::SignedFixedPoint(FloatWidth::Width32), Value::I32(kani::any()), Some(any_fixed_point(FloatWidth::Width32)));
-arg_harness!(c01_arg_sfix64, 10, false, false, 1, TypeInfoKind::SignedFixedPoint(FloatWidth::Width64), Value::I64(kani::any()), Some(any_fixed_point(FloatWidth::Width64)));
-arg_harness!(c01_arg_ufix32, 10, false, false, 1, TypeInfoKind::UnsignedFixedPoint(FloatWidth::Width32), Value::U32(kani::any()), Some(any_fixed_point(FloatWidth::Width32)));
-arg_harness!(c01_arg_ufix64, 10, false, false, 1, TypeInfoKind::UnsignedFixedPoint(FloatWidth::Width64), Value::U64(kani::any()), Some(any_fixed_point(FloatWidth::Width64)));
+arg_harness!(c01_arg_u8, 28, false, false, 1, TypeInfoKind::Unsigned(TypeLength::BitLength8), Value::U8(kani::any()), None);
+arg_harness!(c01_arg_u16, 28, false, false, 1, TypeInfoKind::Unsigned(TypeLength::BitLength16), Value::U16(kani::any()), None);
+arg_harness!(c01_arg_u32, 28, false, false, 1, TypeInfoKind::Unsigned(TypeLength::BitLength32), Value::U32(kani::any()), None);
+arg_harness!(c01_arg_u64, 28, false, false, 1, TypeInfoKind::Unsigned(TypeLength::BitLength64), Value::U64(kani::any()), None);
+arg_harness!(c01_arg_u128, 28, false, false, 1, TypeInfoKind::Unsigned(TypeLength::BitLength128), Value::U128(kani::any()), None);
+arg_harness!(c01_arg_i8, 28, false, false, 1, TypeInfoKind::Signed(TypeLength::BitLength8), Value::I8(kani::any()), None);
+arg_harness!(c01_arg_i16, 28, false, false, 1, TypeInfoKind::Signed(TypeLength::BitLength16), Value::I16(kani::any()), None);
+arg_harness!(c01_arg_i32, 28, false, false, 1, TypeInfoKind::Signed(TypeLength::BitLength32), Value::I32(kani::any()), None);
+arg_harness!(c01_arg_i64, 28, false, false, 1, TypeInfoKind::Signed(TypeLength::BitLength64), Value::I64(kani::any()), None);
+arg_harness!(c01_arg_i128, 28, false, false, 1, TypeInfoKind::Signed(TypeLength::BitLength128), Value::I128(kani::any()), None);
+arg_harness!(c01_arg_f32, 28, false, false, 1, TypeInfoKind::Float(FloatWidth::Width32), Value::F32(kani::any()), None);
+arg_harness!(c01_arg_f64, 28, false, false, 1, TypeInfoKind::Float(FloatWidth::Width64), Value::F64(kani::any()), None);
+arg_harness!(c01_arg_sfix32, 28, false, false, 1, TypeInfoKind::SignedFixedPoint(FloatWidth::Width32), Value::I32(kani::any()), Some(any_fixed_point(FloatWidth::Width32)));
+arg_harness!(c01_arg_sfix64, 28, false, false, 1, TypeInfoKind::SignedFixedPoint(FloatWidth::Width64), Value::I64(kani::any()), Some(any_fixed_point(FloatWidth::Width64)));
+arg_harness!(c01_arg_ufix32, 28, false, false, 1, TypeInfoKind::UnsignedFixedPoint(FloatWidth::Width32), Value::U32(kani::any()), Some(any_fixed_point(FloatWidth::Width32)));
+arg_harness!(c01_arg_ufix64, 28, false, false, 1, TypeInfoKind::UnsignedFixedPoint(FloatWidth::Width64), Value::U64(kani::any()), Some(any_fixed_point(FloatWidth::Width64)));
 
 // with variable info (name + unit of <= 2 ASCII bytes)
-arg_harness!(c01_arg_u32_vari, 8, true, false, 2, TypeInfoKind::Unsigned(TypeLength::BitLength32), Value::U32(kani::any()), None);
-arg_harness!(c01_arg_i16_vari, 8, true, false, 2, TypeInfoKind::Signed(TypeLength::BitLength16), Value::I16(kani::any()), None);
-arg_harness!(c01_arg_f32_vari, 8, true, false, 2, TypeInfoKind::Float(FloatWidth::Width32), Value::F32(kani::any()), None);
-arg_harness!(c01_arg_ufix32_vari, 12, true, false, 2, TypeInfoKind::UnsignedFixedPoint(FloatWidth::Width32), Value::U32(kani::any()), Some(any_fixed_point(FloatWidth::Width32)));
+arg_harness!(c01_arg_u32_vari, 28, true, false, 2, TypeInfoKind::Unsigned(TypeLength::BitLength32), Value::U32(kani::any()), None);
+arg_harness!(c01_arg_i16_vari, 28, true, false, 2, TypeInfoKind::Signed(TypeLength::BitLength16), Value::I16(kani::any()), None);
+arg_harness!(c01_arg_f32_vari, 28, true, false, 2, TypeInfoKind::Float(FloatWidth::Width32), Value::F32(kani::any()), None);
+arg_harness!(c01_arg_ufix32_vari, 28, true, false, 2, TypeInfoKind::UnsignedFixedPoint(FloatWidth::Width32), Value::U32(kani::any()), Some(any_fixed_point(FloatWidth::Width32)));
 
 // thorough: symbolic coding / trace-info bits
-arg_harness!(c01_arg_u32_symflags, 8, false, true, 1, TypeInfoKind::Unsigned(TypeLength::BitLength32), Value::U32(kani::any()), None);
-arg_harness!(c01_arg_f64_symflags, 10, false, true, 1, TypeInfoKind::Float(FloatWidth::Width64), Value::F64(kani::any()), None);
+arg_harness!(c01_arg_u32_symflags, 28, false, true, 1, TypeInfoKind::Unsigned(TypeLength::BitLength32), Value::U32(kani::any()), None);
+arg_harness!(c01_arg_f64_symflags, 28, false, true, 1, TypeInfoKind::Float(FloatWidth::Width64), Value::F64(kani::any()), None);
 
 fn text_arg<const L: usize, const S: usize>(kind: TypeInfoKind, vari: bool, sym_flags: bool) -> Argument {
     let value = match kind {
@@ -214,42 +226,42 @@ fn text_arg<const L: usize, const S: usize>(kind: TypeInfoKind, vari: bool, sym_
 
 #[kani::proof]
 #[kani::stub(alloc::fmt::format, fmt_stub)]
-#[kani::unwind(6)]
+#[kani::unwind(28)]
 fn c01_arg_bool() {
     let a = text_arg::<1, 1>(TypeInfoKind::Bool, false, false);
     check_arg_roundtrip(&a, kani::any());
 }
 #[kani::proof]
 #[kani::stub(alloc::fmt::format, fmt_stub)]
-#[kani::unwind(8)]
+#[kani::unwind(28)]
 fn c01_arg_bool_vari() {
     let a = text_arg::<2, 1>(TypeInfoKind::Bool, true, false);
     check_arg_roundtrip(&a, kani::any());
 }
 #[kani::proof]
 #[kani::stub(alloc::fmt::format, fmt_stub)]
-#[kani::unwind(9)]
+#[kani::unwind(28)]
 fn c01_arg_string() {
     let a = text_arg::<1, 3>(TypeInfoKind::StringType, false, false);
     check_arg_roundtrip(&a, kani::any());
 }
 #[kani::proof]
 #[kani::stub(alloc::fmt::format, fmt_stub)]
-#[kani::unwind(10)]
+#[kani::unwind(28)]
 fn c01_arg_string_vari() {
     let a = text_arg::<2, 2>(TypeInfoKind::StringType, true, false);
     check_arg_roundtrip(&a, kani::any());
 }
 #[kani::proof]
 #[kani::stub(alloc::fmt::format, fmt_stub)]
-#[kani::unwind(8)]
+#[kani::unwind(28)]
 fn c01_arg_raw() {
     let a = text_arg::<1, 3>(TypeInfoKind::Raw, false, false);
     check_arg_roundtrip(&a, kani::any());
 }
 #[kani::proof]
 #[kani::stub(alloc::fmt::format, fmt_stub)]
-#[kani::unwind(10)]
+#[kani::unwind(28)]
 fn c01_arg_raw_vari() {
     let a = text_arg::<2, 2>(TypeInfoKind::Raw, true, false);
     check_arg_roundtrip(&a, kani::any());
